@@ -178,7 +178,7 @@ def op_text(op):
         return use_save_text(tuple(op["sol"]), [tuple(u) for u in op["uses"]], [tuple(s) for s in op["saves"]]) + PUNCH + "END\n"
     if o == "run_cells":
         return "RUN_CELLS\n -cells %s\n%sEND\n" % (op["list"], PUNCH)
-    if o in ("combo", "failing"):
+    if o in ("combo", "failing", "text"):
         return op["text"]
     raise ValueError(o)
 
@@ -421,6 +421,9 @@ def model_apply(store, op):
     elif o in ("run_cells", "combo"):
         e["keys"] = None            # judged differentially
         return e
+    elif o == "text":               # free text used to build an initial state: declares the entries it defines
+        touched |= {tuple(k) for k in op["keys"]}
+        keys |= touched
     elif o == "failing":
         e["must_fail"] = True
     e["keys"] = keys
